@@ -586,7 +586,10 @@ func trieReconstruct(concat *syntax.Regexp, ci bool) anyRequired {
 // literals (< 2 bytes) because they will be combined with a prefix by the
 // caller, producing a longer and more selective string.
 //
-// Returns nil if any branch of an alternation has no extractable literal (same
+// Every returned string is a *leading* literal of re: each match of re starts
+// with one of them. That is what makes prefix+suffix a substring of the input.
+//
+// Returns nil if any branch of an alternation has no leading literal (same
 // semantics as extractLiterals for OpAlternate: we can't safely omit a branch).
 func rawExtractSuffixes(re *syntax.Regexp, ci bool) []string {
 	switch re.Op {
@@ -609,43 +612,38 @@ func rawExtractSuffixes(re *syntax.Regexp, ci bool) []string {
 		return result
 
 	case syntax.OpConcat:
-		// Try the full extractLiterals pipeline first (handles deeper nesting
-		// through the trieReconstruct fallback it already calls).
-		lits := extractLiterals(re, ci)
-		if lits != nil {
-			switch v := lits.(type) {
-			case allRequired:
-				// Only safe to return a single trie suffix when the concat
-				// collapses to exactly one contiguous literal. Multiple
-				// allRequired elements mean there are wildcards between them
-				// (e.g. "elect.*from" → allRequired{"elect","from"}). Joining
-				// them would produce "electfrom" — a phantom string that never
-				// appears contiguously in a real input — causing false negatives
-				// on valid matches like "select x from". Return nil here so the
-				// caller falls back to the safer anyRequired propagation instead.
-				if len(v) == 1 {
-					return []string{v[0]}
+		// The caller glues the returned strings directly behind its prefix, so
+		// only literals every match of this concat *starts with* qualify.
+		// Literals found further inside (e.g. "bc" in `.bc`, "error" in
+		// `::[a-z]*error`) are required somewhere in the input, but not right
+		// after the prefix: prefix+literal would be a phantom string that valid
+		// matches ("axbc" for `a(?:.bc|b)`) do not contain.
+		if len(re.Sub) == 0 {
+			return nil
+		}
+		first := re.Sub[0]
+		if first.Op != syntax.OpLiteral {
+			// A leading group/alternation: its own leading literals lead the
+			// concat too (anything else, e.g. `.`, `x*`, `\b`, yields nil).
+			return rawExtractSuffixes(first, ci)
+		}
+		lead := rawLiteral(first, ci)
+		if lead == "" {
+			return nil
+		}
+		// Nested trie (`e(?:lect|t)` inside `s(?:e(?:lect|t)|leep)`): extend
+		// the leading literal with the leading literals of the next element
+		// when it has any; otherwise the leading literal alone is the suffix.
+		if len(re.Sub) >= 2 {
+			if next := rawExtractSuffixes(re.Sub[1], ci); next != nil {
+				out := make([]string, 0, len(next))
+				for _, n := range next {
+					out = append(out, lead+n)
 				}
-				return nil
-			case anyRequired:
-				return []string(v)
-			case combinedRequired:
-				// For trie-reconstruction we need a suffix that is *always* present
-				// when this sub-concat fires. The .all elements are guaranteed;
-				// .any elements are only conditionally present (one of them must be
-				// present, but not a specific one). Returning a .any element would
-				// let the outer prefix combine with a wrong suffix (e.g. "s"+"execute"
-				// instead of "s"+"p_"+"execute" → "sp_execute"), producing a phantom
-				// literal that never appears contiguously in real input.
-				// Return the single longest .all element as the guaranteed suffix.
-				rep := longest([]string(v.all))
-				if rep == "" {
-					return nil
-				}
-				return []string{rep}
+				return out
 			}
 		}
-		return nil
+		return []string{lead}
 
 	case syntax.OpCapture:
 		return rawExtractSuffixes(re.Sub[0], ci)
